@@ -65,11 +65,11 @@ theorem c07_depack_source_facts :
     IpcHub.Gen.h264DepacketizeConds = ["if len(payload) < 1", "switch", "case naluType < h264.NalStapaInRtp", "case naluType == h264.NalStapaInRtp", "case naluType == h264.NalFuAInRtp", "default"] ∧
     IpcHub.Gen.h264StapaConds = ["for", "if off+2 > len(payload)", "if nalSize < 1", "if off+int(nalSize) > len(payload)", "if err != nil", "if off >= len(payload)"] ∧
     IpcHub.Gen.h264FuAConds = ["if len(payload) < 3", "if (fuHeader>>7)&1 == 1", "if len(h264dp.fragments) == 0", "if len(h264dp.fragments) != 0 &&\n\th264dp.fragments[len(h264dp.fragments)-1].SequenceNumber != packet.SequenceNumber-1", "if (fuHeader>>6)&1 == 1"] ∧
-    IpcHub.Gen.h264WriteFrameConds = ["switch nalType", "case h264.NalSps", "if len(h264dp.meta.Sps) == 0 || !h264dp.metaReady", "case h264.NalPps", "if len(h264dp.meta.Pps) == 0 || !h264dp.metaReady", "case h264.NalFillerData", "if !h264dp.metaReady", "if !h264.MetadataIsReady(h264dp.meta)", "if h264dp.meta.FixedFrameRate", "if h264dp.dtsStep > 0"] ∧
+    IpcHub.Gen.h264WriteFrameConds = ["switch nalType", "case h264.NalSps", "if len(h264dp.meta.Sps) == 0 || h264dp.unvalidated()", "case h264.NalPps", "if len(h264dp.meta.Pps) == 0 || h264dp.unvalidated()", "case h264.NalFillerData", "if !h264dp.metaReady", "if !h264.MetadataIsReady(h264dp.meta)", "if h264dp.meta.FixedFrameRate", "if h264dp.dtsStep > 0"] ∧
     IpcHub.Gen.h265DepacketizeConds = ["if len(payload) < 2", "switch naluType", "case hevc.NalStapInRtp", "case hevc.NalFuInRtp", "default"] ∧
     IpcHub.Gen.h265StapConds = ["for", "if off+2 > len(payload)", "if nalSize < 1", "if off+int(nalSize) > len(payload)", "if err != nil", "if off >= len(payload)"] ∧
     IpcHub.Gen.h265FuConds = ["if len(payload) < 3", "if (fuHeader>>7)&1 == 1", "if len(h265dp.fragments) == 0 || (len(h265dp.fragments) != 0 &&\n\th265dp.fragments[len(h265dp.fragments)-1].SequenceNumber != packet.SequenceNumber-1)", "if (fuHeader>>6)&1 == 1"] ∧
-    IpcHub.Gen.h265WriteFrameConds = ["switch nalType", "case hevc.NalVps", "if len(h265dp.meta.Vps) == 0 || !h265dp.metaReady", "case hevc.NalSps", "if len(h265dp.meta.Sps) == 0 || !h265dp.metaReady", "case hevc.NalPps", "if len(h265dp.meta.Pps) == 0 || !h265dp.metaReady", "if !h265dp.metaReady", "if !hevc.MetadataIsReady(h265dp.meta)", "if h265dp.meta.FixedFrameRate", "if h265dp.dtsStep > 0"] ∧
+    IpcHub.Gen.h265WriteFrameConds = ["switch nalType", "case hevc.NalVps", "if len(h265dp.meta.Vps) == 0 || h265dp.unvalidated()", "case hevc.NalSps", "if len(h265dp.meta.Sps) == 0 || h265dp.unvalidated()", "case hevc.NalPps", "if len(h265dp.meta.Pps) == 0 || h265dp.unvalidated()", "if !h265dp.metaReady", "if !hevc.MetadataIsReady(h265dp.meta)", "if h265dp.meta.FixedFrameRate", "if h265dp.dtsStep > 0"] ∧
     IpcHub.Gen.aacConds = ["if len(payload) < 2", "if framesPayloadOffset > len(payload)", "for i < int(auHeadersCount)", "if int(frameSize) > len(framesPayload)", "if err != nil"] ∧
     IpcHub.Gen.syncDecodeConds = ["if len(data) >= 20 && data[1] == 200"] ∧
     IpcHub.Gen.controlConds = ["if dp.syncClock.RTPTime == 0", "if ok"] ∧
@@ -96,6 +96,8 @@ theorem c07_depack_source_facts :
     IpcHub.Gen.srChecked = true ∧
     IpcHub.Gen.psUntilReady264 = true ∧
     IpcHub.Gen.psUntilReady265 = true ∧
+    IpcHub.Gen.h264Unvalidated = ["return !h264dp.metaReady && h264dp.meta.Width == 0"] ∧
+    IpcHub.Gen.h265Unvalidated = ["return !h265dp.metaReady && h265dp.meta.Width == 0"] ∧
     IpcHub.Gen.h264NalSps = 7 ∧
     IpcHub.Gen.h264NalPps = 8 ∧
     IpcHub.Gen.h264NalIdrSlice = 5 ∧
